@@ -7,7 +7,7 @@ from .. import core, gen, impl_conc
 from . import c14
 
 ID = "C15"
-BUDGET = {"quick": 150, "thorough": 12000}
+BUDGET = {"quick": 600, "thorough": 60000}
 RULE = ("scenario = one real threading Scheduler, 2-5 jobs (one-shots, jobs on their last attempt, unlimited ones) whose callbacks run "
         "scripts of public operations on their own scheduler - str, repr, get_jobs, jobs, scheduling a new job, delete_job of "
         "themselves / an earlier / a later / a foreign job, delete_jobs by tag or all - with n_threads in {1,2,3,0}; one or two "
